@@ -94,4 +94,10 @@ def run(tier):
     r.seconds = time.time() - t0
     r.vacuity = []
     reps.append(r)
+    # warm start and cold start optimise over the same support: the potentials _setup installs carry the structural zeros on the
+    # warm-start path too (same contract as C10's _setup item; a warm start that skipped them would search a larger set)
+    from .. import deductive
+    from ..contracts import inference as K
+    reps.append(deductive.verify_function(K.REL, 'FactoredInference._setup', K.SETUP_ZEROS, hooks=K.hooks_for(K.SETUP_ZEROS), registry={},
+                                          prefix='%s::FactoredInference._setup[warm and cold start share the declared support]' % K.REL))
     return reps + returns_fresh_reports(RETURNS_FRESH)
